@@ -369,6 +369,13 @@ def t_bcrypt(rec, seed, tier, engine, shard):
             "cost": draw(st.sampled_from([4, 4, 4, 5] if tier == "thorough" else [4])),
         }
 
+    if shard == 0:
+        # directed: the empty key under every ident (the key schedule has nothing to cycle), and one-byte keys
+        for ident in ("2", "2a", "2b", "2y"):
+            for pw in (b"", b"a", b"\xff"):
+                rec.ev()
+                o_bcrypt(rec, {"engine": engine, "password": pw, "ident": ident, "salt": "abcdefghijklmnopqrstuu", "cost": 4}, soft=True)
+
     def body(c):
         rec.ev()
         rec.count(f"bcrypt:{engine}:{c['ident']}")
